@@ -149,6 +149,13 @@ class CSA:
                         nxt.append(('yes' if verdict == 'yes' and v2 == 'yes' else 'maybe', s2, e2))
                 results = nxt
             return results
+        if k == 'p_lit':
+            lv = pat['lit'].get('value')
+            if val[0] in ('int', 'bool', 'str'):
+                return [('yes', st, env)] if val[1] == lv else []
+            return [('maybe', st.clone(), env)]
+        if k == 'p_range':
+            return [('maybe', st.clone(), env)]
         if k in ('p_path', 'p_tuple_struct', 'p_struct'):
             path = pat['path']
             name = path[-1]
